@@ -91,10 +91,12 @@ Definition remove_repeats (l : list (Z * Z)) : list (Z * Z) :=
    Result: the (sensor_values, events) pair handed to CategoricalData, events ending with num_dumps.
    Err models the IndexError raised when there is no dump (dump_endtimes[0]) or, with no initial value,
    no usable event (events[0]). *)
-Definition s2c (ts vals ends : list Z) (P : Z) (tr : option (list (Z * Z))) (init : option Z)
-               (greedy : list Z) (allow_repeats : bool) : res (list Z * list Z) :=
+(* lines 714-752: everything before the generator.  Result: (sensor_values, events) with events[0] = 0,
+   or None for the IndexError cases. *)
+Definition s2c_prep (ts vals ends : list Z) (P : Z) (tr : option (list (Z * Z))) (init : option Z)
+  : option (list Z * list Z) :=
   match ends with
-  | [] => Err
+  | [] => None
   | e0 :: _ =>
     let num_dumps := Z.of_nat (length ends) in
     let ends' := (e0 - P) :: ends in                                        (* extra prior dump *)
@@ -114,16 +116,26 @@ Definition s2c (ts vals ends : list Z) (P : Z) (tr : option (list (Z * Z))) (ini
       | None => (vals, events)
       end in
     match events with
-    | [] => Err                                                             (* events[0] = 0 : IndexError *)
-    | _ :: etl =>
-      let events := 0 :: etl in
-      let gflags := map (fun v => memZ v greedy) vals in
-      let events := events ++ [num_dumps] in
-      let '(cleaned, events) := single_event_per_dump events gflags in
-      let pairs := map (fun i => (nth i vals 0, nth i events 0)) cleaned in
-      let pairs := if allow_repeats then pairs else remove_repeats pairs in
-      Ok (map fst pairs, map snd pairs ++ [num_dumps])
+    | [] => None                                                            (* events[0] = 0 : IndexError *)
+    | _ :: etl => Some (vals, 0 :: etl)
     end
+  end.
+
+(* lines 753-770: greedy flags, terminator, generator, indexing by cleaned_up, repeat removal *)
+Definition s2c_tail (vals events : list Z) (num_dumps : Z) (greedy : list Z) (allow_repeats : bool)
+  : list Z * list Z :=
+  let gflags := map (fun v => memZ v greedy) vals in
+  let events := events ++ [num_dumps] in
+  let '(cleaned, events) := single_event_per_dump events gflags in
+  let pairs := map (fun i => (nth i vals 0, nth i events 0)) cleaned in
+  let pairs := if allow_repeats then pairs else remove_repeats pairs in
+  (map fst pairs, map snd pairs ++ [num_dumps]).
+
+Definition s2c (ts vals ends : list Z) (P : Z) (tr : option (list (Z * Z))) (init : option Z)
+               (greedy : list Z) (allow_repeats : bool) : res (list Z * list Z) :=
+  match s2c_prep ts vals ends P tr init with
+  | None => Err
+  | Some (v, e) => Ok (s2c_tail v e (Z.of_nat (length ends)) greedy allow_repeats)
   end.
 
 (* ---------- CategoricalData(sensor_values, events) ---------- *)
@@ -282,3 +294,10 @@ Definition wire_102 (x : sx) : sx :=
       L [L p1; L p2]
   | _ => sx_err
   end.
+
+(* guard of C10_per_dump_partial: the initial value is used by the code as the rule says, i.e. NOT the F14 situation
+   (an initial value is given, no event at or before the start of dump 0, and an event inside dump 0) *)
+Definition opt_eqb (a b : option Z) : bool :=
+  match a, b with Some x, Some y => x =? y | None, None => true | _, _ => false end.
+Definition c10_guard (ts ends : list Z) (P : Z) (init : option Z) : bool :=
+  opt_eqb (init_as_coded ts ends P init) init.
